@@ -196,6 +196,15 @@ def coqc_many(paths, ctx=None, timeout=600, extra_q=(), jobs=None):
             res[r["file"]] = r
             if ctx:
                 ctx.log("coqc_" + os.path.basename(r["file"]) + ".log", r["out"])
+    # a process killed by the kernel (out of memory while 16 evaluations ran side by side) before its time limit is not a
+    # verdict: run those files again one after the other
+    for pth, r in sorted(res.items()):
+        if r["rc"] in (-9, 137) and r["secs"] < 0.9 * timeout:
+            r2 = coqc_one(pth, timeout, extra_q)
+            r2["retried_after_kill"] = True
+            res[pth] = r2
+            if ctx:
+                ctx.log("coqc_" + os.path.basename(pth) + ".log", r2["out"])
     return res
 
 
